@@ -489,9 +489,18 @@ class MRGPath:
 
     def assumed_empty(self, term) -> bool:
         """the path assumes that `term` (a list) is empty"""
+        def unwrap(t):
+            # list(x) / tuple(x) hold what x holds
+            if isinstance(t, tuple) and len(t) == 4 and t[0] == 'call' and t[1] in (('name', 'list'), ('name', 'tuple')) and len(t[2]) == 1 and not t[3]:
+                return unwrap(t[2][0])
+            if isinstance(t, tuple):
+                return tuple(unwrap(x) for x in t)
+            return t
+        term = unwrap(term)
         ln = ('call', ('name', 'len'), (term,), ())
 
         def same_emptiness(t):
+            t = unwrap(t)
             # the mirrored list of `term` holds two rows per row of `term`: it is empty exactly when `term` is
             if isinstance(t, tuple) and t and self.model.mirrored(t) == term:
                 return term
@@ -1000,6 +1009,33 @@ def vector_casts(repo, chk, oid):
                     'outrank/algorithms/importance_estimator.py')
 
 
+def narrow_code_buffers(repo, chk, oid):
+    """The coded frame handed to the scorers must hold the codes in a type wide enough for every cardinality a batch can have.  A buffer that is
+    allocated in mixed_rank_graph (helpers expanded) with a NARROW integer dtype and then becomes (part of) a DataFrame wraps codes above its range:
+    a batch with more than 32767 (int16) / 127 (int8) distinct values in a column merges categories before scoring."""
+    fn = repo.func('outrank.core_ranking', 'mixed_rank_graph')
+    m = fn.module
+    allocs = []
+    for n in own_nodes(fn.node):
+        if isinstance(n, ast.Assign) and len(n.targets) == 1 and isinstance(n.targets[0], ast.Name) and isinstance(n.value, ast.Call) and (m.dotted(n.value.func) or '') in ('numpy.empty', 'numpy.zeros', 'numpy.full', 'numpy.ones', 'numpy.ndarray', 'numpy.empty_like', 'numpy.zeros_like'):
+            dt = next((k.value for k in n.value.keywords if k.arg == 'dtype'), None)
+            if dt is not None and ast.unparse(dt) in NARROW_DTYPES and 'bool' not in ast.unparse(dt):
+                allocs.append((n, dt))
+    hit = None
+    for n, dt in allocs:
+        x = n.targets[0].id
+        into_frame = any(isinstance(c, ast.Call) and (m.dotted(c.func) or '') in ('pandas.DataFrame', 'pandas.DataFrame.from_records', 'pandas.DataFrame.from_dict') and any(isinstance(y, ast.Name) and y.id == x for a in list(c.args) + [k.value for k in c.keywords] for y in ast.walk(a))
+                         for c in own_nodes(fn.node))
+        if into_frame:
+            hit = (n, dt)
+            break
+    if hit:
+        chk.bad(oid, 'R8', fn.site(hit[0]), ast.unparse(hit[0])[:120], f'the buffer the category codes of the batch are written into has dtype {ast.unparse(hit[1])}: codes above its range wrap around on assignment, so a column with more '
+                'distinct values than that type can hold has categories merged (and negative codes) before it is scored - the scores become a function of the numeric codes')
+    else:
+        chk.ok(oid, 'R8', fn.site(), f'{len(allocs)} narrow buffer(s) in mixed_rank_graph, none of them becomes the coded frame', 'the coded frame is not assembled in a narrow integer buffer')
+
+
 def column_overwrites(fn):
     """Stores that replace an existing column of a frame inside `fn` (after helper expansion):
          F[k] = <expression reading F[k]>        F[k] = ..  with k drawn from F.columns        F.loc[:, k] / F[[..]] likewise
@@ -1233,4 +1269,92 @@ def heuristic_universe(repo):
         for v in vs:
             if isinstance(v, (ast.Set, ast.Tuple, ast.List, ast.Call)):
                 out |= {c.value for c in ast.walk(v) if isinstance(c, ast.Constant) and isinstance(c.value, str) and ('-' in c.value or c.value.isalpha()) and len(c.value) < 40}
+    return out
+
+
+# ---------------------------------------------------------------------------------------------------------------------------------
+# where a value comes from: a backward trace through locals, parameters (all call sites in the module), record fields and returns
+# ---------------------------------------------------------------------------------------------------------------------------------
+
+def value_origins(module, fn_node, expr, limit=60):
+    """The expressions a value is computed from, followed backwards through: local names (all their bindings in the function),
+    parameters (the arguments at every call site of the function inside the module), `.field` of a record built inside the module
+    (the argument given for that field), calls of functions / methods of the module (what they return).  Returns the list of
+    (function node, expression) visited; leaves are expressions that none of the steps applies to.  Bounded; never raises."""
+    tree = module.tree
+    funcs = {}
+    for n in ast.walk(tree):
+        if isinstance(n, (ast.FunctionDef, ast.AsyncFunctionDef)):
+            funcs.setdefault(n.name, []).append(n)
+    classes = {n.name: n for n in ast.walk(tree) if isinstance(n, ast.ClassDef)}
+    fields = {}
+    for cn, c in classes.items():
+        fl = [s.target.id for s in c.body if isinstance(s, ast.AnnAssign) and isinstance(s.target, ast.Name)]
+        if fl:
+            fields[cn] = fl
+    owner = {}
+    for f in [x for v in funcs.values() for x in v]:
+        for n in ast.walk(f):
+            owner.setdefault(id(n), f)
+    seen, out, todo = set(), [], [(fn_node, expr)]
+    while todo and len(out) < limit:
+        f, e = todo.pop()
+        key = (id(f), ast.dump(e))
+        if key in seen:
+            continue
+        seen.add(key)
+        out.append((f, e))
+        if isinstance(e, ast.Name):
+            binds = [s.value for s in ast.walk(f) if isinstance(s, (ast.Assign, ast.AnnAssign)) and s.value is not None and
+                     any(isinstance(t, ast.Name) and t.id == e.id for t in (s.targets if isinstance(s, ast.Assign) else [s.target]))]
+            todo += [(f, b) for b in binds]
+            # a loop / comprehension variable comes from what is iterated
+            loops_ = [n.iter for n in ast.walk(f) if isinstance(n, (ast.For, ast.comprehension)) and any(isinstance(x, ast.Name) and x.id == e.id for x in ast.walk(n.target))]
+            todo += [(f, b) for b in loops_]
+            binds = binds + loops_
+            params = [a.arg for a in f.args.posonlyargs + f.args.args + f.args.kwonlyargs]
+            if e.id in params and not binds:
+                pos = [a.arg for a in f.args.posonlyargs + f.args.args]
+                is_method = bool(pos) and pos[0] in ('self', 'cls')
+                for c in ast.walk(tree):
+                    if isinstance(c, ast.Call) and ((isinstance(c.func, ast.Name) and c.func.id == f.name) or (isinstance(c.func, ast.Attribute) and c.func.attr == f.name)):
+                        ps = pos[1:] if (is_method and isinstance(c.func, ast.Attribute)) else pos
+                        arg = next((k.value for k in c.keywords if k.arg == e.id), None)
+                        if arg is None and e.id in ps and ps.index(e.id) < len(c.args) and not any(isinstance(a, ast.Starred) for a in c.args):
+                            arg = c.args[ps.index(e.id)]
+                        if arg is not None and id(c) in owner:
+                            todo.append((owner[id(c)], arg))
+            continue
+        if isinstance(e, ast.Attribute):
+            hit = False
+            for cn, fl in fields.items():
+                if e.attr in fl:
+                    for c in ast.walk(tree):
+                        if isinstance(c, ast.Call) and isinstance(c.func, ast.Name) and c.func.id == cn and id(c) in owner:
+                            arg = next((k.value for k in c.keywords if k.arg == e.attr), None)
+                            if arg is None and fl.index(e.attr) < len(c.args):
+                                arg = c.args[fl.index(e.attr)]
+                            if arg is not None:
+                                todo.append((owner[id(c)], arg))
+                                hit = True
+            if not hit and isinstance(e.value, ast.Name) and e.value.id == 'self':
+                # self.attr: what any method of the class stores there
+                for n in ast.walk(tree):
+                    if isinstance(n, ast.Assign) and id(n) in owner and any(isinstance(t, ast.Attribute) and t.attr == e.attr and isinstance(t.value, ast.Name) and t.value.id == 'self' for t in n.targets):
+                        todo.append((owner[id(n)], n.value))
+            continue
+        if isinstance(e, ast.Call):
+            name = e.func.id if isinstance(e.func, ast.Name) else e.func.attr if isinstance(e.func, ast.Attribute) and isinstance(e.func.value, ast.Name) and e.func.value.id in ('self', 'cls') else None
+            if name in funcs:
+                for g in funcs[name]:
+                    for r in ast.walk(g):
+                        if isinstance(r, ast.Return) and r.value is not None and owner.get(id(r)) is g:
+                            todo.append((g, r.value))
+                continue
+        for sub in ast.iter_child_nodes(e):
+            if isinstance(sub, ast.expr) and not isinstance(sub, ast.Constant):
+                todo.append((f, sub))
+            elif isinstance(sub, ast.comprehension):
+                todo.append((f, sub.iter))
+                todo += [(f, c) for c in sub.ifs]
     return out
